@@ -196,6 +196,7 @@ func patchMutants(vd string) []Mutant {
 				Properties []string `json:"properties"`
 				Breaks     string   `json:"breaks"`
 				Summary    string   `json:"summary"`
+				Limitation bool     `json:"known_checker_limitation"`
 			}
 			if json.Unmarshal(mb, &meta) != nil {
 				continue
@@ -211,7 +212,7 @@ func patchMutants(vd string) []Mutant {
 			if len(why) > 300 {
 				why = why[:300] + "…"
 			}
-			out = append(out, Mutant{Name: kind.dir + ":" + e.Name(), Kind: kind.kind, Prop: props, PatchFile: filepath.Join(d, "patch.diff"), Expect: "*", Why: why})
+			out = append(out, Mutant{Name: kind.dir + ":" + e.Name(), Kind: kind.kind, Prop: props, PatchFile: filepath.Join(d, "patch.diff"), Expect: "*", Why: why, KnownLimitation: meta.Limitation})
 		}
 	}
 	sort.Slice(out, func(i, j int) bool { return out[i].Name < out[j].Name })
